@@ -172,14 +172,17 @@ def run(tier, rep, ev):
     chains = [c["chain"] for c in json.load(open(out))["chains"] if c["valid"] and "Deflate64" not in c["chain"]]
     base = scratch("c07w")
     cases = []
-    mlists = [[], [5], [0], ["dir"], [40, "dir", 0, 300], ["dir", "dir"], [33, 17, 16], ["symlink", 20], ["tree"], [0, 0], [2000, "dir", "symlink", 0, 1]]
+    # sizes incl. the exact powers of 128 (the NUMBER encoding changes length there) and their neighbours
+    mlists = [[], [5], [0], ["dir"], [40, "dir", 0, 300], ["dir", "dir"], [33, 17, 16], ["symlink", 20], ["tree"], [0, 0], [2000, "dir", "symlink", 0, 1],
+              [16384], [128, 16384, 127], [16383, 16385, "dir"], [2097152], [2097151, 129, 2097153]]
 
     def add(sessions, pw):
         cases.append({"sessions": sessions, "password": pw, "seed": R.getrandbits(30), "wd": os.path.join(base, f"c{len(cases)}")})
 
     for k, ch in enumerate(chains):
         pw = "pä\U0001F511" if ("AES" in ch or k % 7 == 0) else None
-        add([{"chain": ch, "header": ["encoded", "raw", "encrypted"][k % 3], "members": mlists[k % len(mlists)]}], pw)
+        # (PPMd: small members only - pyppmd 1.1.1 crashes on MiB-sized incompressible input also inside the reference reader)
+        add([{"chain": ch, "header": ["encoded", "raw", "encrypted"][k % 3], "members": mlists[k % (11 if "PPMd" in ch else len(mlists))]}], pw)
     for k in range(150 if tier == "quick" else 1500):
         ns = R.choice([2, 2, 3])
         pw = "pw" if k % 5 == 0 else None
